@@ -18,7 +18,10 @@ prescribed ones:
   anything but Found-with-addresses; delegations are checked only below the apex;
 - CNAME: OtherRecordsAtCname iff the node has another RRset, DuplicateCname iff the CNAME RRset has != 1 RDATA;
 - NsAtWildcard iff the owner is a wildcard, independently of apex / class;
-- severity: is_error is false exactly for MissingMxAddress and NsAtWildcard; every issue variant is constructed.
+- severity: is_error is false exactly for MissingMxAddress and NsAtWildcard; every issue variant is constructed;
+- no issue / helper site carries a condition on state that is carried from one record to the next (a `&mut` parameter,
+  a mutably borrowed local such as a cache or counter): whether an issue is reported is a function of the zone and the
+  record at hand.  Sites are matched per incoming arm (merged `|` arms, match guards, computed booleans are expanded).
 Not decided: absence of spurious issues / presence of all issues on arbitrary zones (value-level).
 """
 ASSUMPTIONS = ['every CFG path is assumed feasible', 'issue table frozen from the property text']
